@@ -148,7 +148,9 @@ def run_forked(fn, args, crash=None, target=None, timeout=120):
 	rfd, wfd = os.pipe()
 	sys.stdout.flush()
 	sys.stderr.flush()
-	pid = os.fork()
+	from . import escape
+	with escape.own():
+		pid = os.fork()
 	if pid == 0:
 		os.close(rfd)
 		signal.alarm(timeout)
